@@ -21,6 +21,77 @@ def explore(ctx):
     grid_common.neighbour_tie(ctx, max_len=3 if ctx.quick else 4)
     grid_common.reused_adjacency_stream(ctx, 120 if ctx.quick else 1200)
     long_axis_stream(ctx)
+    infinity_stream(ctx)
+
+
+def infinity_stream(ctx):
+    """+inf is a number above every threshold: images with saturated (+inf) pixels, NaN holes, no pruning.  Checked
+    against the definition directly: every structure's region is connected, no pixel above the threshold that touches a
+    region from outside is brighter than a pixel inside, and the trunk regions are the connected components of the pixels
+    above the threshold.  Oracle only (the integer model has no infinities)."""
+    import numpy as np
+    from astrodendro import Dendrogram
+    rng = ctx.rng('c03-inf')
+    for it in range(120 if ctx.quick else 1200):
+        shape = rng.choice([(rng.randint(4, 10),), (3, 4), (4, 4), (2, 6)])
+        n = int(np.prod(shape))
+        vals = [rng.choice([1.0, 2.0, 3.0, 4.0, 5.0, 0.5, np.inf, np.inf, np.nan]) for _ in range(n)]
+        if not any(np.isfinite(v) for v in vals):
+            vals[0] = 1.0
+        arr = np.array(vals).reshape(shape)
+        mv = rng.choice([0.0, 0.75, 2.5])
+        info = {'stream': 'infinite pixels', 'shape': list(shape), 'data': repr(vals), 'min_value': mv}
+        fails = []
+        try:
+            d = Dendrogram.compute(arr.copy(), min_value=mv)
+            flat = arr.ravel()
+            kept = set(int(i) for i in np.flatnonzero(~np.isnan(flat) & (flat > mv)))
+
+            def nbrs(p):
+                c = np.unravel_index(p, shape)
+                for a in range(len(shape)):
+                    for dlt in (-1, 1):
+                        cc_ = list(c)
+                        cc_[a] += dlt
+                        if 0 <= cc_[a] < shape[a]:
+                            yield int(np.ravel_multi_index(cc_, shape))
+
+            def component(start, allowed):
+                seen, todo = {start}, [start]
+                while todo:
+                    x = todo.pop()
+                    for y in nbrs(x):
+                        if y in allowed and y not in seen:
+                            seen.add(y)
+                            todo.append(y)
+                return seen
+            for s_ in d:
+                reg = set(oracles.flat_indices(shape, s_.indices(subtree=True)))
+                if component(next(iter(reg)), reg) != reg:
+                    fails.append('structure %d is not connected: %s' % (s_.idx, sorted(reg)))
+                lo = min(flat[p] for p in reg)
+                for p in reg:
+                    for q in nbrs(p):
+                        if q in kept and q not in reg and flat[q] > lo:
+                            fails.append('pixel %d (value %r) touches structure %d from outside and is brighter than its faintest pixel (%r)' % (q, float(flat[q]), s_.idx, float(lo)))
+                            break
+                    else:
+                        continue
+                    break
+            comps, left = [], set(kept)
+            while left:
+                c_ = component(next(iter(left)), kept)
+                comps.append(sorted(c_))
+                left -= c_
+            trunk = sorted(sorted(oracles.flat_indices(shape, t.indices(subtree=True))) for t in d.trunk)
+            if trunk != sorted(comps):
+                fails.append('trunk regions %s are not the connected components %s of the pixels above the threshold' % (trunk, sorted(comps)))
+        except Exception as e:
+            fails.append('raised %r' % (e,))
+        ctx.count('infinite_pixel_cases')
+        ctx.case_done(None, ('c03-inf', repr(vals), shape, mv))
+        if fails:
+            ctx.oracle_failure(info, fails[:3])
 
 
 def long_axis_stream(ctx):
